@@ -248,6 +248,15 @@ def run_property(prop: str, tier: str, seed: int) -> int:
     findings = load_findings(prop)
     ctx = Ctx(prop, tier, seed)
     ctx.fixed_witnesses = [e for e in findings if e.get("status") == "fixed" and "witness" in e]
+    # regression corpus: the failing inputs found for the seeded changes (seeded/<id>/failing.json, validated to pass on
+    # the unchanged tree when they were recorded) run first, so that detecting those changes does not depend on the draw
+    for f in sorted((VERIF / "seeded").glob(f"S-{prop}-*/failing.json")):
+        try:
+            j = json.loads(f.read_text())
+            if j.get("property") == prop and j.get("kind") == "failing-input" and (j.get("replay") or j.get("input")):
+                ctx.fixed_witnesses.append({"id": f.parent.name, "witness": j.get("replay") or j.get("input")})
+        except Exception:  # noqa: BLE001
+            pass
     harness_error = None
     try:
         if ba["driver_ok"]:
